@@ -191,6 +191,8 @@ class State:
         s.caught = self.caught
         if hasattr(self, "iter_old"):
             s.iter_old = self.iter_old
+        if hasattr(self, "loop_entry"):
+            s.loop_entry = self.loop_entry
         return s
 
     def assume(self, c):
@@ -1587,6 +1589,10 @@ class Engine:
 
     def assign_target(self, st, tgt, val, node):
         if isinstance(tgt, ast.Name):
+            ht = self.contract.hints.get(tgt.id)
+            if isinstance(ht, Ty.Opt) and isinstance(val, V) and not isinstance(val.t, Ty.Opt) and (isinstance(val.t, Ty._None) or repr(val.t) == repr(ht.t)):
+                # a local the contract types Optional: `x = None` / `x = value` keep that type (so that loop heads can join them)
+                val = self.coerce(val, ht)
             if isinstance(val, V) and val.t.mutable:
                 val = self.alloc(st, val)
             st.vars[tgt.id] = val
